@@ -8,6 +8,7 @@ import (
 	"bytes"
 	"encoding/hex"
 	"fmt"
+	"os"
 	"regexp"
 	"sort"
 	"strings"
@@ -483,6 +484,9 @@ func (ch *chain) run(o chainOracle) *Violation {
 				ci.After = ch.view()
 			}
 			ci.Awards, ci.Burns = ch.app.awardLog, ch.app.burnLog
+			if os.Getenv("VERIF_TRACE") != "" {
+				fmt.Printf("TRACE h=%d tx=%d kind=%s mode=%q from=%d code=%d/%d panic=%v log=%s\n", h, ti, tx.Kind, tx.Mode, tx.From, ci.Deliver.Code, ci.Check.Code, ci.Panic, firstLines(ci.Deliver.Log+ci.Check.Log, 1))
+			}
 			if v := o.after(ch, ci); v != nil || ci.Panic != nil {
 				return v
 			}
